@@ -35,6 +35,7 @@ From Coq Require Import PrimFloat.
 From Coq Require Import ZArith List Bool Reals Lra Permutation Sorted.
 From BZ Require Import Base.Ops Gen.Point Gen.Line Gen.Quad Gen.Cubic Gen.CurveDist Hand.MinDist Proofs.C20 Proofs.C20term Proofs.C20termF Base.FloatCmp.
 Import ListNotations.
+From BZ Require Proofs.Transfer5.
 From BZ Require Gen.PathOps Proofs.Bridge5.
 From BZ Require Proofs.Transfer4.
 From BZ Require Gen.Sample Gen.MinDist Proofs.Bridge4.
@@ -286,6 +287,15 @@ Proof. exact @Bridge5.distanceToPath_bridge_some. Qed.
 Theorem C20_distanceToPath_bridge_default :
   forall (T : Type) (O0 : Ops T), Bridge2.lit_ok O0 -> forall (fuel : nat) (segs1 segs2 : list (segment T)), (32 <= fuel)%nat -> sample_times O0 32 (ofZ O0 0) (dvd O0 (ofZ O0 1) (ofZ O0 10)) <> None -> let g := PathOps.Path_distanceToPath O0 fuel segs1 segs2 (ofZ O0 10) in let h := distanceToPath O0 fuel segs1 segs2 in (segs2 <> [] -> Bridge5.dp_rel g h) /\ (segs2 = [] -> h = UnboundErr /\ (g = None \/ g = Some (Sample.Raises Sample.PyUnboundLocalError))).
 Proof. exact @Bridge5.distanceToPath_bridge_default. Qed.
+Theorem C20_gen_distanceToPath_belongs :
+  forall (fuel : nat) (segs1 segs2 : list (segment R)) (d t1 t2 : R) (s1 s2 : segment R), (32 <= fuel)%nat -> segs2 <> [] -> PathOps.Path_distanceToPath ROps fuel segs1 segs2 (ofZ ROps 10) = Some (Sample.Returns (d, t1, t2, s1, s2)) -> In s1 segs1 /\ In s2 segs2 /\ 0 <= t1 <= 1 /\ 0 <= t2 <= 1 /\ (exists u' v' : R, 0 <= u' <= 1 /\ 0 <= v' <= 1 /\ d = seg_dist s1 s2 u' v').
+Proof. exact @Transfer5.gen_distanceToPath_belongs. Qed.
+Theorem C20_gen_distanceToPath_bounds :
+  forall (fuel : nat) (segs1 segs2 : list (segment R)) (d t1 t2 : R) (s1 s2 : segment R) (lo hi : R), (32 <= fuel)%nat -> segs2 <> [] -> (forall a b : segment R, In a segs1 -> In b segs2 -> forall u v : R, 0 <= u <= 1 -> 0 <= v <= 1 -> lo <= seg_dist a b u v <= hi) -> PathOps.Path_distanceToPath ROps fuel segs1 segs2 (ofZ ROps 10) = Some (Sample.Returns (d, t1, t2, s1, s2)) -> 0 <= d /\ lo <= d <= hi.
+Proof. exact @Transfer5.gen_distanceToPath_bounds. Qed.
+Theorem C20_gen_distanceToPath_empty :
+  forall (fuel : nat) (segs1 : list (segment R)), (32 <= fuel)%nat -> let g := PathOps.Path_distanceToPath ROps fuel segs1 [] (ofZ ROps 10) in g = None \/ g = Some (Sample.Raises Sample.PyUnboundLocalError).
+Proof. exact @Transfer5.gen_distanceToPath_empty. Qed.
 
 Print Assumptions C20_S_is_sqdist_2_2.
 Print Assumptions C20_S_is_sqdist_2_3.
@@ -369,3 +379,6 @@ Print Assumptions C20_gen_seg_sample_times.
 Print Assumptions C20_distanceToPath_bridge.
 Print Assumptions C20_distanceToPath_bridge_some.
 Print Assumptions C20_distanceToPath_bridge_default.
+Print Assumptions C20_gen_distanceToPath_belongs.
+Print Assumptions C20_gen_distanceToPath_bounds.
+Print Assumptions C20_gen_distanceToPath_empty.
